@@ -22,7 +22,10 @@ A schedule is a list of naturals.  At every decision the enabled actions are lis
 completions first, then the caller) -- the Lean driver applies the same rule, so every schedule is total.
 
 Compared with the model: the full step log `tid:events>point` (which thread ran, the events `pull/submit/...` it
-emitted, the kind of scheduling point it parked at next).  Model-independent oracles judge the implementation:
+emitted, the kind of scheduling point it parked at next).  Single-call scenarios go to `drv_m1l` (model M1L,
+`lean/JoblibModel/ParallelLock.lean`); scenarios with SEVERAL calls on one object (callback threads and parked batches of
+earlier calls stay alive and interleave with the later calls) and the one-callback-at-a-time contract variant go to
+`drv_m1lseq` (model M1L-Seq, `lean/JoblibModel/ParallelLockSeq.lean`) -- both step log by step log.  Model-independent oracles judge the implementation:
 result == range(n), exactly-once execution, no second thread inside the input iterator, failure => raises, no hang /
 deadlock.
 """
@@ -43,6 +46,7 @@ X_FIELDS = ("_aborting", "_exception", "_iterating", "_original_iterator", "n_di
 import os as _os
 _RECHECK_ENV = _os.environ.get("M1L_RECHECK", "auto")  # "0" / "1" force the model variant; default: probe the tree
 _RECHECK_CACHE = [None]
+_PROBE_NOTES = []   # what the variant probes could not decide (copied into res.notes by run_lock_scenarios)
 
 
 def recheck_default():
@@ -54,19 +58,108 @@ def recheck_default():
     if _RECHECK_ENV in ("0", "1"):
         return _RECHECK_ENV == "1"
     if _RECHECK_CACHE[0] is None:
-        r = run_scenario(LScenario(nj=2, bs=(1,), pd=2, recheck=False, calls=((0, (), -1),), sched=()))
         nxt = None
-        for a, b in zip(r.log, r.log[1:]):
-            if a == "0:>r:n_dispatched_tasks":
-                nxt = b
-                break
+        try:
+            r = run_scenario(LScenario(nj=2, bs=(1,), pd=2, recheck=False, guard=True, calls=((0, (), -1),), sched=()))
+            for a, b in zip(r.log, r.log[1:]):
+                if a == "0:>r:n_dispatched_tasks":
+                    nxt = b
+                    break
+        except Exception as e:  # noqa: BLE001 -- a probe never turns a changed tree into an infrastructure error
+            nxt = f"{type(e).__name__}"
         if nxt == "0:>r:_aborting":
             _RECHECK_CACHE[0] = True
         elif nxt == "0:>r:_exception":
             _RECHECK_CACHE[0] = False
         else:
-            raise core.InfraError(f"m1_lock: cannot tell the _wait_retrieval variant of the tree under test (probe saw {nxt!r})")
+            # cannot classify: follow the variant of the current /repo and let the step-log comparison and the oracles
+            # report whatever is different in the tree under test
+            _RECHECK_CACHE[0] = True
+            _PROBE_NOTES.append(f"m1l: the _wait_retrieval probe could not classify the tree under test (saw {nxt!r}); "
+                                f"the model follows the variant recheck=True")
     return _RECHECK_CACHE[0]
+_GUARD_ENV = _os.environ.get("M1L_GUARD", "auto")  # "0" / "1" force the M1L-Seq variant; default: probe the tree
+_GUARD_CACHE = [None]
+
+
+def guard_default():
+    """Which code variant the M1L-Seq MODEL must follow for the tree under test: `True` when `_dispatch_new` tests the
+    call id under the lock (the F50 repair), `False` for the older code.  Behavioural probe (no look at the source): two
+    calls on one object; a callback of the first (aborted) call is parked before the lock of `_dispatch_new` until the
+    second call has set `_original_iterator`; the step it then takes is inspected -- `1:>rel` (took the lock, returned)
+    = guarded; it pulls from the input of the second call = not guarded.  `M1L_GUARD=0|1` overrides."""
+    if _GUARD_ENV in ("0", "1"):
+        return _GUARD_ENV == "1"
+    if _GUARD_CACHE[0] is None:
+        sc = LScenario(nj=2, bs=(1,), pd=2, abort_drops=False, recheck=False, guard=True,
+                       calls=((2, (1,), -1), (2, (), -1)), sched=())
+        st = dict(phase=0, k=0, seen=None)
+
+        def pick(acts, kind, x):
+            for i, a in enumerate(acts):
+                if a == (kind, x):
+                    return i
+            # the tree under test does not follow the expected protocol: give up (drain), the probe cannot classify it
+            st["lost"] = f"phase {st['phase']}: wanted {(kind, x)}, enabled {acts}"
+            st["phase"] = 5
+            return len(acts) - 1
+
+        def chooser(acts, run):
+            while True:
+                if run.steps > 400 and st["phase"] < 5:   # a protocol the probe does not know: stop steering
+                    st["lost"] = f"phase {st['phase']}: more than 400 steps"
+                    st["phase"] = 5
+                ph = st["phase"]
+                if ph == 0:      # the caller, until it sleeps in the retrieval loop (both batches are submitted)
+                    if run.log[-1] == "0:>sleep":
+                        st["phase"] = 1
+                        return pick(acts, "c", 0)
+                    return pick(acts, "t", 0)
+                if ph == 1:      # callback of batch 0: first critical section, batch_completed, parks before _dispatch_new's lock
+                    if st["k"] < 4:
+                        st["k"] += 1
+                        return pick(acts, "t", 1)
+                    st["phase"], st["k"] = 2, 0
+                    return pick(acts, "c", 0)
+                if ph == 2:      # callback of batch 1 (its task fails): registers the error, finishes
+                    if 2 not in run.sched.threads:
+                        return pick(acts, "t", 2)
+                    if run.sched.threads[2].point != "done":
+                        return pick(acts, "t", 2)
+                    st["phase"] = 3
+                    continue
+                if ph == 3:      # the caller: raises, enters the second call, until `_iterating = False` of `_start` is done
+                    if sum(1 for e in run.log if e.startswith("0:") and e.endswith(">w:_iterating")) == 2 and \
+                            not run.log[-1].endswith(">w:_iterating"):
+                        st["phase"] = 4
+                        return pick(acts, "t", 1)
+                    return pick(acts, "t", 0)
+                if ph == 4:
+                    st["seen"] = run.log[-1]
+                    st["phase"] = 5
+                return len(acts) - 1
+
+        seen = None
+        try:
+            r = LRun(sc)
+            r.chooser = chooser
+            r.execute()
+            seen = st["seen"] if (r.status == "ok" and "lost" not in st) else f"{r.status}; {st.get('lost', st['seen'])}"
+        except Exception as e:  # noqa: BLE001 -- a probe never turns a changed tree into an infrastructure error
+            seen = f"{type(e).__name__}"
+        if seen == "1:>rel":
+            _GUARD_CACHE[0] = True
+        elif isinstance(seen, str) and seen.startswith("1:") and (seen.startswith("1:pull") or seen.endswith(">submit") or seen.endswith(">bs")):
+            _GUARD_CACHE[0] = False
+        else:
+            # cannot classify: follow the variant of the current /repo and let the step-log comparison and the oracles
+            # report whatever is different in the tree under test
+            _GUARD_CACHE[0] = True
+            _PROBE_NOTES.append(f"m1l: the _dispatch_new probe could not classify the tree under test (saw {seen!r}); "
+                                f"the model follows the variant dispatch_new_guard=True")
+    return _GUARD_CACHE[0]
+
+
 STEP_WAIT = 20.0  # seconds a single step may take before the run is declared stuck (real blocking = harness/impl bug)
 
 
@@ -97,11 +190,13 @@ class LScenario:
     abort_drops: bool = True
     recheck: bool = False  # which code variant the MODEL follows: `_wait_retrieval` re-reads `_aborting` before returning
     #                        False (the F49 repair). Generated scenarios take `recheck_default()` (a probe of the tree).
-    calls: tuple = ()     # tuple of (n, fail_positions, iterfail); more than one call = oracle-only (not in the model)
+    calls: tuple = ()     # tuple of (n, fail_positions, iterfail); more than one call = model M1L-Seq (drv_m1lseq)
     sched: tuple = ()
-    seq_callbacks: bool = False  # oracle-only backend-contract variant: callbacks run one at a time (a single callback
+    seq_callbacks: bool = False  # backend-contract variant (model M1L-Seq): callbacks run one at a time (a single callback
     #                              thread, as in the dask backend's event loop): a batch completes only when no callback
     #                              thread is active
+    guard: bool = True    # which code variant the M1L-Seq MODEL follows: `_dispatch_new` tests the call id under the lock
+    #                       (the F50 repair). Generated scenarios take `guard_default()` (a probe of the tree).
 
     def tokens(self):
         t = [self.nj, int(self.bs_auto), len(self.bs), *self.bs, self.pd_mode, self.pd, self.ra, int(self.abort_drops),
@@ -114,21 +209,38 @@ class LScenario:
     def line(self):
         return " ".join(str(x) for x in self.tokens())
 
+    def tokens_seq(self):
+        """Request line of `drv_m1lseq` (any number of calls; code variants `recheck`, `guard`; contract variant)."""
+        t = [self.nj, int(self.bs_auto), len(self.bs), *self.bs, self.pd_mode, self.pd, self.ra, int(self.abort_drops),
+             int(self.recheck), int(self.guard), int(self.seq_callbacks), len(self.calls)]
+        for (n, fail, iterfail) in self.calls:
+            t += [n, len(fail), *fail, iterfail]
+        t += [len(self.sched), *self.sched]
+        return t
+
+    def line_seq(self):
+        return " ".join(str(x) for x in self.tokens_seq())
+
+    def use_seq(self):
+        """Compared with M1L-Seq (`drv_m1lseq`) rather than with M1L (`drv_m1l`, one call, every callback its own thread)."""
+        return len(self.calls) != 1 or self.seq_callbacks
+
     def to_json(self):
         return dict(nj=self.nj, bs_auto=self.bs_auto, bs=list(self.bs), pd_mode=self.pd_mode, pd=self.pd,
                     pd_expr=self.pd_expr, ra=self.ra, abort_drops=self.abort_drops, recheck=self.recheck,
                     calls=[[n, list(f), i] for (n, f, i) in self.calls], sched=list(self.sched),
-                    seq_callbacks=self.seq_callbacks)
+                    seq_callbacks=self.seq_callbacks, guard=self.guard)
 
     def oracle_only(self):
-        return len(self.calls) != 1 or self.seq_callbacks or self.ra == 2
+        return self.ra == 2 or not self.calls
 
     @staticmethod
     def from_json(d):
         return LScenario(nj=d["nj"], bs_auto=d["bs_auto"], bs=tuple(d["bs"]), pd_mode=d["pd_mode"], pd=d["pd"],
                          pd_expr=d.get("pd_expr", ""), ra=d["ra"], abort_drops=d["abort_drops"], recheck=bool(d["recheck"]) if "recheck" in d else recheck_default(),
                          calls=tuple((c[0], tuple(c[1]), c[2]) for c in d["calls"]), sched=tuple(d["sched"]),
-                         seq_callbacks=bool(d.get("seq_callbacks", False)))
+                         seq_callbacks=bool(d.get("seq_callbacks", False)),
+                         guard=bool(d["guard"]) if "guard" in d else guard_default())
 
 
 # ---------------------------------------------------------------- the scheduler
@@ -352,6 +464,7 @@ class LRun:
         self.max_enabled = 0
         self.cb_errors = []
         self.pull_after_abort = []
+        self.chooser = None      # optional adaptive policy (acts, run) -> index, instead of `sc.sched` (probes only)
 
     # --- instrumentation callbacks
     def access(self, name, rw):
@@ -557,7 +670,9 @@ class LRun:
                 self.log.append("hang")
                 break
             self.steps += 1
-            if self.choice_i < len(sc.sched):
+            if self.chooser is not None:
+                kind, x = acts[self.chooser(acts, self)]
+            elif self.choice_i < len(sc.sched):
                 c = sc.sched[self.choice_i]
                 self.choice_i += 1
                 kind, x = acts[c % len(acts)]
@@ -746,31 +861,45 @@ def _sig_for(prop, sig):
 def corpus():
     """(name, scenario) — minimised past failures. `recheck` is left to the probe of the tree under test.
     F49: the input iterable raises inside a callback after the caller read `_aborting == False`; must raise IterBoom.
-    F50a/F50b: a clean second call after an aborted first one while a callback of the first call is still between its
-    two critical sections (F50b: under the dask-like contract, one callback at a time, `abort_everything` joins nothing)."""
+    F50a/F50b/F50c: a clean second call after an aborted first one while a callback of the first call is still between its
+    two critical sections (F50b: under the dask-like contract, one callback at a time, `abort_everything` joins nothing;
+    F50c: the schedule of the Lean counter-example for the unguarded variant)."""
     rc = recheck_default()
+    gd = guard_default()
     f49 = LScenario(nj=2, bs=(1,), pd=2, ra=0, abort_drops=True, recheck=rc, calls=((7, (), 2),),
                     sched=(3, 3, 3, 5, 3, 1, 0, 3, 0, 3, 3, 4, 0, 5, 3, 2, 5, 1, 4, 0, 2, 0, 0, 0, 5, 4, 0, 3, 5, 1, 3, 5, 0,
                            4, 1, 3, 3, 4, 1, 2))
-    f50a = LScenario(nj=2, bs=(1,), pd=2, ra=0, abort_drops=False, recheck=rc, calls=((6, (4,), -1), (2, (), -1)),
+    f50a = LScenario(nj=2, bs=(1,), pd=2, ra=0, abort_drops=False, recheck=rc, guard=gd, calls=((6, (4,), -1), (2, (), -1)),
                      sched=tuple([4, 5, 2, 1, 4, 0, 3, 4, 2, 3, 3, 1, 4, 4, 1, 4, 0, 2, 3, 0, 0, 3, 4, 5, 0, 1, 1, 3, 4, 5, 0,
                                   0, 5, 4, 3, 3, 4, 3, 3, 2, 1, 5, 4, 4, 1, 4, 2, 2, 0, 4, 4, 1, 0, 1, 3, 1] + [0] * 142 +
                                  [1, 0, 0, 4, 3, 1, 5, 5, 3, 3, 1, 1, 0, 5, 0, 2, 1, 0, 5, 4, 2, 4, 0, 2, 2, 3, 1, 5, 4, 1, 0,
                                   2, 5, 1, 5, 5, 5, 4, 3, 4, 0, 4, 0, 1, 5, 4, 0, 1, 5, 0, 5, 1, 4, 4, 5, 0, 2, 1, 5, 0, 2, 2,
                                   1, 0, 4, 3, 5]))
-    f50b = LScenario(nj=2, bs=(1,), pd=3, ra=0, abort_drops=True, recheck=rc, seq_callbacks=True,
+    f50b = LScenario(nj=2, bs=(1,), pd=3, ra=0, abort_drops=True, recheck=rc, guard=gd, seq_callbacks=True,
                      calls=((2, (), 2), (3, (), -1)),
                      sched=tuple([4, 2, 2, 1, 4, 4, 0, 2, 1, 3, 0, 4, 2, 0, 0, 1, 2, 4, 2, 3, 2, 3, 0, 2, 4, 0, 0, 3, 1, 2, 2,
                                   0, 2] + [0] * 59 +
                                  [1, 2, 2, 0, 3, 0, 3, 4, 0, 4, 1, 2, 0, 4, 1, 4, 4, 0, 3, 3, 2, 0, 1, 0, 3, 1, 3, 3, 3, 0, 3,
                                   2, 0, 0, 2, 4, 0, 0, 3, 2, 4, 0, 1, 0, 3, 2, 4, 1, 0, 1, 2, 3]))
+    # F50c: the Lean twin `M1LSeq.stale_dispatch_new_counterexample` (`M1LSeq.scU` / `M1LSeq.schedU`): one surviving
+    # callback of the aborted first call runs `_dispatch_new` during the set-up of the clean second call.
+    f50c = LScenario(nj=2, bs=(1,), pd=2, ra=0, abort_drops=False, recheck=rc, guard=gd, calls=((2, (1,), -1), (2, (), -1)),
+                     sched=(1, 1, 3, 3, 2, 3, 2, 3, 0, 3, 3, 3, 3, 0, 2, 0, 3, 1, 0, 3, 0, 0, 1, 2, 0, 1, 2, 0, 0, 0, 0, 0, 0,
+                            0, 0, 0, 0, 0, 0, 0, 0, 0, 0, 0, 0, 0, 0, 0, 0, 0, 1, 3, 2, 1, 1, 3, 0, 2, 1, 0, 3, 2, 3, 2, 3, 3,
+                            0, 2, 2, 0, 2, 0, 3, 0, 3, 0, 3, 0, 3, 2, 0, 1, 0))
+    # call-id window: a callback of the aborted first call takes its `_dispatch_new` step while the second call is in the
+    # middle of `_reset_run_tracking` (after `n_completed_tasks = 0`); with the call id drawn first, under the lock, it is
+    # a no-op -- if the id were drawn later its batch would be counted for the second call (directed schedule).
+    win = LScenario(nj=2, bs=(1,), pd=2, ra=0, abort_drops=False, recheck=rc, guard=gd, calls=((2, (1,), -1), (2, (), -1)),
+                    sched=tuple([0] * 29 + [1, 1, 1, 1, 1, 2, 2, 1, 2] + [0] * 15 + [1] + [0] * 25 + [2] * 7 + [0] * 14))
     return [("F49-iterator-error-after-aborting-read", f49), ("F50a-stale-dispatch-new", f50a),
-            ("F50b-stale-dispatch-new-single-callback-thread", f50b)]
+            ("F50b-stale-dispatch-new-single-callback-thread", f50b), ("F50c-stale-dispatch-new-lean-twin", f50c),
+            ("call-id-window-stale-count", win)]
 
 
 def gen_multicall(rng):
     """Two or three calls on one object, the earlier ones aborted (task or iterator failure), with a long caller-only
-    stretch so that callbacks of the aborted call are still alive when the next call starts. Oracle-only."""
+    stretch so that callbacks of the aborted call are still alive when the next call starts (model M1L-Seq)."""
     nj = rng.choice([2, 2, 3])
     ncalls = rng.choice([2, 2, 3])
     calls = []
@@ -788,8 +917,60 @@ def gen_multicall(rng):
     mid = [0] * rng.randint(40, 200)
     post = [rng.randrange(6) for _ in range(rng.randint(0, 100))]
     return LScenario(nj=nj, bs=(rng.choice([1, 1, 2]),), pd=rng.choice([1, 2, 2, 3, 4, 6]), ra=0,
-                     abort_drops=rng.random() < 0.5, recheck=recheck_default(), calls=tuple(calls),
+                     abort_drops=rng.random() < 0.5, recheck=recheck_default(), guard=guard_default(), calls=tuple(calls),
                      sched=tuple(pre + mid + post), seq_callbacks=rng.random() < 0.5)
+
+
+def gen_multicall_alive(rng):
+    """Two to four calls on one object with failing / aborted EARLIER calls whose callbacks and parked batches are kept
+    alive (mostly `abort_drops=False`) and interleave with the later calls: per call a random stretch, then a stretch that
+    strongly prefers the caller (it finishes the call and goes through the reset of the next one while the callbacks of the
+    finished call are parked wherever they were), then again random choices so that the stale threads take their steps
+    in the middle of the next call's reset, dispatch and retrieval.  All batch-size / pre_dispatch / return_as modes of
+    the model."""
+    nj = rng.choice([2, 2, 3])
+    ncalls = rng.choice([2, 2, 2, 3, 3, 4])
+    bs_auto = rng.random() < 0.3
+    if bs_auto:
+        bs = tuple(rng.choice([1, 1, 2, 2, 3]) for _ in range(rng.randint(1, 5)))
+    else:
+        bs = (rng.choice([1, 1, 1, 2]),)
+    r = rng.random()
+    pd_expr = ""
+    if r < 0.15:
+        pd_mode, pd = 1, 0
+    elif r < 0.25:
+        pd_mode = 2
+        pd_expr = rng.choice(EXPRS)
+        pd = int(eval(pd_expr.replace("n_jobs", str(nj)), {"__builtins__": {}}, {}))  # noqa: S307
+    else:
+        pd_mode, pd = 0, rng.choice([1, 1, 2, 2, 3, nj, 2 * nj])
+    calls = []
+    sched = []
+    for k in range(ncalls):
+        n = rng.randint(0, 7) if rng.random() < 0.9 else rng.randint(8, 12)
+        last = k == ncalls - 1
+        fail, iterfail = (), -1
+        if rng.random() < (0.25 if last else 0.8):
+            if n and rng.random() < 0.6:
+                fail = tuple(sorted({rng.randrange(n) for _ in range(rng.choice([1, 1, 2]))}))
+            else:
+                iterfail = rng.randint(0, n)
+        calls.append((n, fail, iterfail))
+        if rng.random() < 0.25:
+            sched += [rng.randrange(7) for _ in range(rng.randint(5, 50))]
+        else:
+            # the caller resets and dispatches; then mostly the backend and the callbacks (a failure gets registered,
+            # other callbacks stop half-way); then mostly the caller (it finishes the call and enters the next one)
+            pa = rng.choice([0.8, 0.9, 1.0])
+            sched += [0 if rng.random() < pa else rng.randrange(1, 7) for _ in range(rng.randint(12, 45))]
+            sched += [rng.randrange(1, 8) if rng.random() < 0.85 else 0 for _ in range(rng.randint(4, 40))]
+        p_caller = rng.choice([0.8, 0.9, 0.97, 1.0])
+        sched += [0 if rng.random() < p_caller else rng.randrange(1, 7) for _ in range(rng.randint(25, 120))]
+    sched += [rng.randrange(7) for _ in range(rng.randint(0, 150))]
+    return LScenario(nj=nj, bs_auto=bs_auto, bs=bs, pd_mode=pd_mode, pd=pd, pd_expr=pd_expr, ra=rng.choice([0, 0, 1]),
+                     abort_drops=rng.random() < 0.3, recheck=recheck_default(), guard=guard_default(), calls=tuple(calls),
+                     sched=tuple(sched), seq_callbacks=rng.random() < 0.3)
 
 
 class _Slim:
@@ -837,6 +1018,17 @@ def _worker_main():
     sys.stdout.flush()
 
 
+def _seq_driver():
+    """The driver of the multi-call model; built on demand (a property that uses these scenarios without listing
+    `drv_m1lseq` among its lake targets still finds it)."""
+    d = core.Driver("M1LSeq")
+    if not d.exe.exists():
+        ok, log = core.lake_build(["drv_m1lseq"])
+        if not ok:
+            raise core.InfraError("m1_lock: cannot build drv_m1lseq: " + log[-400:])
+    return d
+
+
 def run_batch(scs, driver, parallel=True, workers=8):
     """Run scenarios on the implementation (sharded over worker SUBPROCESSES: a step costs two OS thread hand-offs,
     mostly latency; subprocesses rather than multiprocessing so that it works from any caller) and on the model.
@@ -877,9 +1069,13 @@ def run_batch(scs, driver, parallel=True, workers=8):
                 runs[i + j * k] = _FromJson(part[j], d)
     else:
         runs = [_Slim(run_scenario(sc)) for sc in scs]
-    idx = [i for i, sc in enumerate(scs) if not sc.oracle_only()]
+    replies = [None] * len(scs)       # None = oracle-only scenario (generator_unordered): not in the models
+    idx = [i for i, sc in enumerate(scs) if not sc.oracle_only() and not sc.use_seq()]
     got = driver.run([scs[i].line() for i in idx]) if idx else []
-    replies = [None] * len(scs)       # None = oracle-only scenario (several calls / contract variant): not in the model
+    for i, m in zip(idx, got):
+        replies[i] = m
+    idx = [i for i, sc in enumerate(scs) if not sc.oracle_only() and sc.use_seq()]
+    got = _seq_driver().run([scs[i].line_seq() for i in idx]) if idx else []
     for i, m in zip(idx, got):
         replies[i] = m
     return [(sc, r, m) for sc, r, m in zip(scs, runs, replies)]
@@ -910,8 +1106,9 @@ def _account(res, prop, sc, r, mlog, seen, stream):
 
 
 def run_lock_scenarios(ctx, res, prop, n_quick=800, n_thorough=24000, budget_quick=22.0, budget_thorough=540.0):
-    """Adds M1L results to `res` (a core.Result): the corpus first, then random single-call scenarios compared with the
-    model step by step, then oracle-only multi-call scenarios. Scenarios come from ctx.rng('m1l/'+prop)."""
+    """Adds M1L / M1L-Seq results to `res` (a core.Result): the corpus first, then random single-call scenarios compared
+    with the model M1L step by step, then multi-call scenarios (earlier calls aborted, their callbacks alive) compared
+    with the model M1L-Seq step by step. Scenarios come from ctx.rng('m1l/'+prop)."""
     rng = ctx.rng("m1l/" + prop)
     driver = core.Driver("M1L")
     n = n_thorough if ctx.thorough else n_quick
@@ -923,7 +1120,7 @@ def run_lock_scenarios(ctx, res, prop, n_quick=800, n_thorough=24000, budget_qui
         _account(res, prop, sc, r, mlog, seen, "m1l-corpus")
     done = 0
     chunk = 800
-    while done < n and _time.time() - t0 < budget * 0.8:
+    while done < n and _time.time() - t0 < budget * 0.7:
         scs = [gen_scenario(rng, big=ctx.thorough) for _ in range(min(chunk, n - done))]
         for sc, r, mlog in run_batch(scs, driver):
             done += 1
@@ -931,19 +1128,56 @@ def run_lock_scenarios(ctx, res, prop, n_quick=800, n_thorough=24000, budget_qui
             res.count(f"m1l-outcome-{r.outcomes[0][0] if r.outcomes else r.status}")
             if done <= 3:
                 res.sample(dict(m1l=sc.to_json(), steps=r.steps, preemptions=pre))
-    n_multi = max(n // 8, 64)
+    n_multi = max(n // 2, 128)
     mdone = 0
+    stale_steps = 0
     while mdone < n_multi and _time.time() - t0 < budget:
-        scs = [gen_multicall(rng) for _ in range(min(chunk, n_multi - mdone))]
+        m = min(chunk, n_multi - mdone)
+        scs = [gen_multicall(rng) if i % 3 == 0 else gen_multicall_alive(rng) for i in range(m)]
         for sc, r, mlog in run_batch(scs, driver):
             mdone += 1
-            _account(res, prop, sc, r, mlog, seen, "m1l-multicall-oracle-only")
+            _account(res, prop, sc, r, mlog, seen, "m1l-multicall")
+            k = stale_thread_steps(r.log)
+            stale_steps += k
+            if k:
+                res.count("m1l-multicall-with-stale-thread-steps")
+            if mdone <= 2:
+                res.sample(dict(m1lseq=sc.to_json(), steps=r.steps, stale_thread_steps=k))
     res.count("m1l-distinct-interleavings", len(seen))
-    res.notes.append(f"m1l: corpus {len(corpus())} + {done} forced-schedule runs of real threads at lock/backend-call/"
-                     f"unlocked-access granularity compared with the model (variant recheck={recheck_default()}) + {mdone} "
-                     f"oracle-only multi-call runs; {len(seen)} distinct interleavings with >= 3 pre-emptions; "
+    res.count("m1l-stale-thread-steps", stale_steps)
+    for note in _PROBE_NOTES:
+        if note not in res.notes:
+            res.notes.append(note)
+    res.notes.append(f"m1l: corpus {len(corpus())} + {done} single-call forced-schedule runs of real threads at lock/backend-call/"
+                     f"unlocked-access granularity compared step by step with the model M1L (variant recheck={recheck_default()}) "
+                     f"+ {mdone} multi-call runs (2-4 calls on one object, callbacks of aborted calls kept alive; {stale_steps} "
+                     f"steps of threads of earlier calls) compared step by step with the model M1L-Seq (variant "
+                     f"dispatch_new_guard={guard_default()}); {len(seen)} distinct interleavings with >= 3 pre-emptions; "
                      f"wall {_time.time() - t0:.1f}s")
     return res
+
+
+def stale_thread_steps(log):
+    """Number of steps taken by callback threads of batches of an EARLIER call (submitted before the caller entered the
+    current call, i.e. was parked at the lock of `_reset_run_tracking` again)."""
+    owner = {}    # tid -> call number in which its batch was submitted
+    call = 0
+    nsub = 0
+    k = 0
+    for e in log:
+        if e.startswith("E:") or ":" not in e:
+            continue
+        tid, rest = e.split(":", 1)
+        evs = rest.rsplit(">", 1)[0].split(";")
+        if tid != "0" and owner.get(tid, call) < call:
+            k += 1
+        for ev in evs:
+            if ev.startswith("submit "):
+                nsub += 1
+                owner[str(nsub)] = call
+        if tid == "0" and rest.endswith(">acq") and any(ev.startswith(("ret ", "raise ")) or ev in ("stop", "ret") for ev in evs):
+            call += 1
+    return k
 
 
 def replay_case(ctx, res, case):
@@ -969,6 +1203,7 @@ def main(argv=None):
     ap.add_argument("--n", type=int, default=200)
     ap.add_argument("--seed", type=int, default=0)
     ap.add_argument("--big", action="store_true")
+    ap.add_argument("--multi", action="store_true", help="multi-call scenarios (model M1L-Seq) instead of single-call ones")
     ap.add_argument("--replay", help="json file with a scenario (as printed in a failure)")
     ap.add_argument("--trace", action="store_true", help="print the step log of the replayed scenario")
     ap.add_argument("--worker", action="store_true", help=argparse.SUPPRESS)
@@ -996,12 +1231,17 @@ def main(argv=None):
     seen = set()
     left = a.n
     steps = 0
+    stale = 0
     while left > 0:
-        scs = [gen_scenario(rng, big=a.big) for _ in range(min(400, left))]
+        if a.multi:
+            scs = [gen_multicall(rng) if i % 3 == 0 else gen_multicall_alive(rng) for i in range(min(400, left))]
+        else:
+            scs = [gen_scenario(rng, big=a.big) for _ in range(min(400, left))]
         left -= len(scs)
         for sc, r, mlog in run_batch(scs, driver):
             res.evaluations += 1
             steps += r.steps
+            stale += stale_thread_steps(r.log)
             ilog = " | ".join(r.log)
             case = sc.to_json()
             if ilog != mlog:
@@ -1014,7 +1254,8 @@ def main(argv=None):
     sigs = {}
     for f in res.oracle_failures:
         sigs.setdefault(f["signature"], f)
-    print(f"scenarios={res.evaluations} steps={steps} distinct-interleavings={len(seen)} divergences={len(res.divergences)} "
+    print(f"variant recheck={recheck_default()} dispatch_new_guard={guard_default()}")
+    print(f"scenarios={res.evaluations} steps={steps} stale-thread-steps={stale} distinct-interleavings={len(seen)} divergences={len(res.divergences)} "
           f"oracle-failures={len(res.oracle_failures)} wall={_time.time() - t0:.1f}s dist={res.dist}")
     for d in res.divergences[:3]:
         print("DIVERGENCE", json.dumps(d["case"]))
